@@ -207,4 +207,64 @@ Section Erase.
   Lemma erase_merge_pair : forall s (n : anode) i n1 s1,
     amerge dflt s n i = (n1, s1) -> erase n1 = merge dflt (erase n) i /\ oracle s1 = oracle s.
   Proof. intros s n i n1 s1 E. pose proof (erase_merge s n i) as H. rewrite E in H. exact H. Qed.
+
+  (* ---------------------------------------------------------------- insert *)
+  Lemma erase_insert_down : forall f s (n : anode) e,
+    let '(st, n', s', lg) := ainsert_down rank dflt L I f s n e in
+    insert_down rank dflt L I f (oracle s) (erase n) e = (st, erase n', oracle s', lg).
+  Proof.
+    induction f as [|f IH]; intros s n e; [reflexivity|].
+    cbn [ainsert_down insert_down]. destruct n as [id vs|id vs cs]; cbn [erase].
+    - destruct (find_value dflt (cmpk rank e) vs) as [[i eq] lg]. destruct eq; reflexivity.
+    - destruct (find_value dflt (cmpk rank e) vs) as [[i eq] lg]. destruct eq; [reflexivity|].
+      rewrite nth_erase, ais_full_erase. destruct (ais_full L I (nth i cs adnode)).
+      + pose proof (alloc_sim Aligned s) as A. destruct (AllocModel.alloc Aligned s) as [[rid|] s1].
+        * destruct A as [A _]. rewrite A. cbn [negb].
+          change (Inode vs (map erase cs)) with (erase (AInode id vs cs)).
+          rewrite <- (erase_split_child rid), avals_erase.
+          set (n1 := asplit_child dflt L I rid (AInode id vs cs) i).
+          destruct (cmpk rank e (nth i (avals n1) dflt)).
+          -- reflexivity.
+          -- rewrite achild_erase. specialize (IH s1 (achild n1 (i + 1)) e).
+             destruct (ainsert_down rank dflt L I f s1 (achild n1 (i + 1)) e) as [[[st c'] s2] lg2].
+             rewrite IH, erase_set_child. reflexivity.
+          -- rewrite achild_erase. specialize (IH s1 (achild n1 i) e).
+             destruct (ainsert_down rank dflt L I f s1 (achild n1 i) e) as [[[st c'] s2] lg2].
+             rewrite IH, erase_set_child. reflexivity.
+        * rewrite A. reflexivity.
+      + specialize (IH s (nth i cs adnode) e).
+        destruct (ainsert_down rank dflt L I f s (nth i cs adnode) e) as [[[st c'] s2] lg2].
+        rewrite IH. cbn [erase]. rewrite map_aset. reflexivity.
+  Qed.
+
+  Lemma erase_grow_up : forall s (r : anode),
+    let '(st, r', s') := agrow_up dflt L I s r in
+    grow_up dflt L I (oracle s) (erase r) = (st, erase r', oracle s').
+  Proof.
+    intros s r. unfold agrow_up, grow_up.
+    pose proof (alloc_sim Aligned s) as A. destruct (AllocModel.alloc Aligned s) as [[nid|] s1].
+    - destruct A as [A _]. rewrite A. cbn [negb].
+      pose proof (alloc_sim Aligned s1) as A1. destruct (AllocModel.alloc Aligned s1) as [[rid|] s2].
+      + destruct A1 as [A1 _]. rewrite A1. cbn [negb]. rewrite (erase_split_child rid). reflexivity.
+      + rewrite A1. reflexivity.
+    - rewrite A. reflexivity.
+  Qed.
+
+  Lemma erase_insert : forall s (t : atree) e,
+    let '(st, t', s', lg) := ainsert_op rank dflt L I s t e in
+    insert rank dflt L I (oracle s) (erase_tree t) e = (st, erase_tree t', oracle s', lg).
+  Proof.
+    intros s t e. unfold ainsert_op, insert. cbn [erase_tree root size].
+    rewrite ais_full_erase.
+    destruct (ais_full L I (a_root t)).
+    - pose proof (erase_grow_up s (a_root t)) as G.
+      destruct (agrow_up dflt L I s (a_root t)) as [[st0 r0] s0]. rewrite G.
+      destruct st0; try reflexivity.
+      pose proof (erase_insert_down (aheight r0) s0 r0 e) as D. rewrite aheight_erase.
+      destruct (ainsert_down rank dflt L I (aheight r0) s0 r0 e) as [[[st r1] s1] lg].
+      rewrite D. reflexivity.
+    - pose proof (erase_insert_down (aheight (a_root t)) s (a_root t) e) as D. rewrite aheight_erase.
+      destruct (ainsert_down rank dflt L I (aheight (a_root t)) s (a_root t) e) as [[[st r1] s1] lg].
+      rewrite D. reflexivity.
+  Qed.
 End Erase.
